@@ -84,6 +84,10 @@ def cmd_run(prop, tier, rebaseline=False):
     seed = int(os.environ.get('VERIF_SEED', '0') or 0)
     sys.path.insert(0, HERE)
     t0 = time.time()
+    known = load_known()
+    if not rebaseline:
+        from mc import acc as _acc
+        _acc.IS_KNOWN = lambda v: match_known(known, prop, v) is not None
     try:
         mod = importlib.import_module('checks.' + prop.lower())
         res = mod.run(tier, seed)
@@ -94,7 +98,6 @@ def cmd_run(prop, tier, rebaseline=False):
         print('HARNESS-ERROR property=%s' % prop)
         return 2
     acc = res['acc']
-    known = load_known()
     new, old = [], {}
     for v in acc.violations:
         e = match_known(known, prop, v)
